@@ -21,6 +21,8 @@ import Flowjaxv.Driver.BnafLd
 import Flowjaxv.Driver.ElboAd
 import Flowjaxv.Driver.Flows
 import Flowjaxv.Driver.TrainGen
+import Flowjaxv.Driver.LossesGen
+import Flowjaxv.Driver.DistPublicGen
 /-!
 Model driver: `lake env lean --run Driver.lean < ops.txt`.  One op per line in, one line out
 (`ERR <msg>` when the model rejects the op).
@@ -102,6 +104,10 @@ def dispatch (line : String) : String :=
       | "keyshape" => keyshape args
       | "pair" => pair args
       | "checkshapes" => checkshapes args
+      | "gsig" => gsig args
+      | "goutshapef" => goutshapef args
+      | "gkeyshape" => gkeyshape args
+      | "gpairs" => gpairs args
       | "tracesafe" => tracesafe args
       | "tracetable" => tracetable args
       | "fieldkind" => fieldkind args
@@ -109,6 +115,10 @@ def dispatch (line : String) : String :=
       | "elbo" => elbo args
       | "cidx" => cidx args
       | "contrastive" => contrastive args
+      | "gmle" => gmle args
+      | "gelbo" => gelbo args
+      | "gcidx" => gcidx args
+      | "gcontrastive" => gcontrastive args
       | "mafbij" => mafbij args
       | "couplingbij" => couplingbij args
       | "bnafinv" => bnafinv args
